@@ -261,5 +261,3 @@ func shrinkMode(t *testing.T, job *Job) {
 	}
 	writeJSON(job.Out, map[string]any{"ok": true, "tried": tried, "replay": out})
 }
-
-func enumMode(t *testing.T, job *Job) {}
